@@ -52,7 +52,7 @@ def sweep_calls(v):
     c.append(('__getitem__', [slice(None, None, -1)], {}))
     c.append(('__getitem__', ['a'], {}))
     c.append(('__getitem__', [None], {}))
-    for w in (0, -5, L, L + 1, 10 ** 4, 'x', None):
+    for w in (0, -5, L, L + 1, 10 ** 4, 'x', None, 10 ** 20, 2.5):     # 10**20: building the padding overflows, as in str
         for fill in (' ', '*', '', 'ab', 5, None):
             for m in ('center', 'ljust', 'rjust'):
                 for inpl in (False, True):
@@ -408,8 +408,8 @@ def bfs_cfg(tier):
         d = int(os.environ['VERIF_DEEP'])
         return [('plain', 'ab', d, 'small'), ('rainbow', 'ab', d, 'small'), ('plain', 'a', d, 'small'), ('restart1', '', d - 1, 'small')]
     if tier == 'quick':
-        return [('plain', 'a', 2), ('plain', 'a-a', 2), ('rainbow', 'ab', 2), ('plain', '', 2), ('restart1', '', 1), ('restart2', '', 1), ('dup1', '', 1), ('dup2', '', 1)]
-    return [('plain', 'a', 3), ('plain', 'a-a', 2), ('rainbow', 'ab', 3), ('plain', '', 3), ('rainbow', 'a-a', 2), ('plain', 'ab', 3), ('restart1', '', 2), ('restart2', '', 2), ('dup1', '', 2), ('dup2', '', 2)]
+        return [('plain', 'a', 2), ('plain', 'a-a', 2), ('rainbow', 'ab', 2), ('plain', '', 2), ('restart1', '', 1), ('restart2', '', 1), ('dup1', '', 1), ('dup2', '', 1), ('stack3', '', 1)]
+    return [('plain', 'a', 3), ('plain', 'a-a', 2), ('rainbow', 'ab', 3), ('plain', '', 3), ('rainbow', 'a-a', 2), ('plain', 'ab', 3), ('restart1', '', 2), ('restart2', '', 2), ('dup1', '', 2), ('dup2', '', 2), ('stack3', '', 2)]
 
 
 def sweep_pool(tier, seed):
@@ -485,7 +485,9 @@ def run_task(task, acc):
     part = task['part']
     R0 = explore.roles(seed)
     seed_hists = {'restart1': [['plain', 'a-a'], ['apply', R0['W'], 0, 3, True], ['apply', R0['R'], 1, 2, False]],
-                  'restart2': [['plain', 'a-a'], ['apply', R0['R'], 0, 3, True], ['apply', R0['B'], 0, 3, True], ['remove', R0['R'], 0, 1]]}
+                  'restart2': [['plain', 'a-a'], ['apply', R0['R'], 0, 3, True], ['apply', R0['B'], 0, 3, True], ['remove', R0['R'], 0, 1]],
+                  # three settings on one character, the outer two ending together, the middle one later (before the end)
+                  'stack3': [['plain', 'a-ab'], ['apply', R0['R'], 0, 2, True], ['apply', R0['W'], 0, 3, True], ['apply', R0['U'], 0, 2, True]]}
 
     def gen(v, hh):
         if len(v) > 7:
